@@ -6,47 +6,12 @@ import (
 
 // C20 — malformed HTTP messages are rejected, well-formed ones accepted.
 
-type vLogger struct{}
-
-func (vLogger) Printf(format string, args ...interface{}) {}
-
-// vNewServerConn builds the connection state the stream loop works on,
-// without sockets or goroutines.
-func vNewServerConn() *serverConn {
-	sc := &serverConn{
-		writer:             make(chan *FrameHeader, 128),
-		reader:             make(chan *FrameHeader, 128),
-		writeStop:          make(chan struct{}),
-		logger:             vLogger{},
-		maxRequestBodySize: 1 << 20,
-		maxWindow:          1 << 22,
-		currentWindow:      1 << 22,
-		clientWindow:       int64(defaultWindowSize),
-	}
-	sc.enc.Reset()
-	sc.dec.Reset()
-	sc.enc.DisableCompression = true
-	sc.st.Reset()
-	// clientS stays the zero value until the client's first SETTINGS frame,
-	// exactly as ServeConn leaves it
-	return sc
-}
-
 // vToken restricts field bytes to the vocabulary the property speaks about:
 // letters, digits, '-' and ':' for names; visible ASCII for values.
 func vNameBytes(b []byte) {
 	for _, c := range b {
 		vAssume((c >= 'a' && c <= 'z') || (c >= 'A' && c <= 'Z') || (c >= '0' && c <= '9') || c == '-' || c == ':')
 	}
-}
-
-// vLiteralField encodes one field as an HPACK literal without indexing with
-// raw strings (lengths below 127).
-func vLiteralField(name, value []byte) []byte {
-	b := []byte{0x00, byte(len(name))}
-	b = append(b, name...)
-	b = append(b, byte(len(value)))
-	return append(b, value...)
 }
 
 // One header field arriving on a stream with arbitrary header-list
@@ -182,66 +147,4 @@ func VerifH_C20_uint() {
 	}
 	vCover("C20.uint.19digits", digits && !over && len(b) == 19)
 	vCover("C20.uint.overflow", digits && over)
-}
-
-// vMenuField is one header field of the request-list harness: how it looks
-// on the wire (literal without indexing, new name) and as name/value.
-type vMenuField struct{ name, value string }
-
-var vFieldMenu = [10]vMenuField{
-	{":method", "GET"}, {":scheme", "https"}, {":path", "/9"}, {":authority", "h"},
-	{"x-ok", "1"}, {"te", "trailers"}, {"content-length", "0"},
-	{"connection", "close"}, {"X-Up", "1"}, {":status", "200"},
-}
-
-// A whole request header list of 3 (quick) / 4 (thorough) fields, each drawn
-// from a menu of ten (the four request pseudo-headers, three harmless regular
-// fields, a connection-specific field, an upper-case name, a response
-// pseudo-header), delivered through the real read loop and stream loop, in one
-// HEADERS frame or split at a field boundary into HEADERS + CONTINUATION:
-// the handler runs exactly when folding the RFC 7540 8.1.2 automaton over the
-// list accepts it and :method, :scheme and :path are all there; otherwise the
-// stream alone is refused with PROTOCOL_ERROR. This harness touches no
-// internal state of the package.
-//
-//verif:harness prop=C20 unwind=64 timeout=600
-func VerifH_C20_reqlist() {
-	n := vPick(3, 4)
-	var st refReqState
-	ok := true
-	var frags [][]byte
-	for i := 0; i < n; i++ {
-		f := vFieldMenu[vRange(0, 9)]
-		var stepOK, dup bool
-		st, stepOK, dup = refReqStep(st, []byte(f.name), []byte(f.value))
-		ok = ok && stepOK && !dup
-		frags = append(frags, vLiteralField([]byte(f.name), []byte(f.value)))
-	}
-	ok = ok && st.method && st.scheme && st.path
-	split := vRange(0, n) // fields in the HEADERS frame; n = no CONTINUATION
-	s := vStartServer(8)
-	var first, rest []byte
-	for i, fr := range frags {
-		if i < split {
-			first = append(first, fr...)
-		} else {
-			rest = append(rest, fr...)
-		}
-	}
-	if split == n {
-		s.send(vFrame(0x1, 0x5, 1, first))
-	} else {
-		s.send(vFrame(0x1, 0x1, 1, first))
-		s.send(vFrame(0x9, 0x4, 1, rest))
-	}
-	r := vClassify(s.replies())
-	vAssert(!r.goaway, "C20.reqlist.never-a-connection-error")
-	if ok {
-		vAssert(len(s.handled) == 1 && r.headers[1] == 1 && len(r.rst) == 0, "C20.reqlist.well-formed-is-dispatched")
-	} else {
-		vAssert(len(s.handled) == 0, "C20.reqlist.malformed-is-not-dispatched")
-		vAssert(r.rst[1] == ProtocolError || r.headers[1] == 1, "C20.reqlist.malformed-is-refused-alone")
-	}
-	vCover("C20.reqlist.ok-split", ok && split == 2)
-	vCover("C20.reqlist.pseudo-after-regular-across-frames", !ok && split == 2 && len(s.handled) == 0)
 }
